@@ -235,7 +235,9 @@ def run_e2e(case):
         files = {"a.json": []}
     # rerun: the SAME Acelyzer object analyses the inputs a second time (the documented API allows it); the
     # selection of the second run is the one the statement describes, not a continuation of the first
-    res = stage.e2e(cli_argv(case)[2:], files, post=(lambda ace: ace.run()) if case.get("rerun") else None)
+    # `extra`: switches the selection does not depend on (they register or leave out LATER stages)
+    res = stage.e2e(cli_argv(case)[2:] + list(case.get("extra", [])), files,
+                    post=(lambda ace: ace.run()) if case.get("rerun") else None)
     if res["rc"] != 0 or res["events"] is None:
         return None, res
     return [e["args"]["uid"] for e in res["events"] if e.get("ph") == "X" and "uid" in e.get("args", {})], res
@@ -675,6 +677,8 @@ def run(ctx: Ctx):
             case["split"] = split
         if rng.random() < 0.25:
             case["rerun"] = True
+        case["extra"] = rng.choice([[], [], ["--keep_prep"], ["--drop_globals"], ["-t"], ["--disable_tb"], ["-k"], ["-M"],
+                                    ["--flow"], ["-C", "power_ts4"], ["--drop_globals", "-t", "--keep_prep"]])
         case["limit"].pop("no_count_types", None)
         x = expected(case)
         if x is None:
